@@ -482,7 +482,7 @@ func TestCheck(t *testing.T) {
 			c.SetExhaustive("length_sweep", false)
 		}
 
-		c.Rapid("random", c.N(1200, 5000), func(t *rapid.T) {
+		c.Rapid("random", c.N(1200, 20000), func(t *rapid.T) {
 			cs, cl := gen(t)
 			if _, n, _, ok := encodedLen(cs.Text, cs.Charset); !ok || n == 0 {
 				t.Skip("not representable")
